@@ -307,9 +307,9 @@ func TestVerifC08(t *testing.T) {
 		r.Finish(t, "fault_enumeration", "replay", nil, nil)
 		return
 	}
-	corpora := [][]int{{2}, {1, 2}, {4, 1, 3}}
+	corpora := [][]int{{2}, {1, 2}, {4, 1, 3}, {5}}
 	if r.Thorough() {
-		corpora = append(corpora, []int{1}, []int{3, 4}, []int{1, 2, 3, 4})
+		corpora = append(corpora, []int{1}, []int{3, 4}, []int{1, 2, 3, 4}, []int{5, 1}, []int{2, 5, 4})
 	}
 	type cfg struct {
 		ingest             []int
@@ -334,7 +334,7 @@ func TestVerifC08(t *testing.T) {
 	})
 	ev := r.Get("evaluations")
 	r.Finish(t, "fault_enumeration",
-		fmt.Sprintf("corpora %v (bulks of 1-3 documents) x SkipSortDocs x KeepMetaFile, scaled block constants (4 IDs / 4 LIDs per block, 64-byte token blocks, 128-byte doc blocks): (1) every crash state of the journal of load+rotate+seal+release (Model A: every prefix and every torn length of every write; Model B: lost unsynced tails / overwrites), de-duplicated, recovered by the real loader in a child: every ingested document must be fetched byte-for-byte and found by each token; (2) every single fault kind:k for kind in write,sync,rename,create,seek,remove and k=1..count observed in the fault-free run: process death (fm.seal -> Fatal) => recover from the directory left behind; survival => documents served in-process and after restart. distinct_nontrivial = distinct crash states + injected faults", corpora),
+		fmt.Sprintf("corpora %v (bulks of 1-3 documents; bulk 5 is token-heavy: its dictionary spans many 64-byte token blocks) x SkipSortDocs x KeepMetaFile, scaled block constants (4 IDs / 4 LIDs per block, 64-byte token blocks, 128-byte doc blocks): (1) every crash state of the journal of load+rotate+seal+release (Model A: every prefix and every torn length of every write; Model B: lost unsynced tails / overwrites), de-duplicated, recovered by the real loader in a child: every ingested document must be fetched byte-for-byte and found by each token; (2) every single fault kind:k for kind in write,sync,rename,create,seek,remove and k=1..count observed in the fault-free run: process death (fm.seal -> Fatal) => recover from the directory left behind; survival => documents served in-process and after restart. distinct_nontrivial = distinct crash states + injected faults", corpora),
 		map[string]any{
 			"states":                        r.DistinctCount("nontrivial"),
 			"transitions":                   ev,
